@@ -254,7 +254,7 @@ fn digest_wire(w: &[u8]) -> String {
 /// Mode S: a full server; the client writes the script in the pieces given by the schedule
 /// (piece lengths separated by ','; 0 = one write of everything), pausing `pause_ms` between
 /// pieces, then half-closes and reads to EOF.
-fn server(toks: &[&str], idle: bool, revoke_mid: bool) -> String {
+fn server(toks: &[&str], idle: bool, revoke_mid: bool, second_server: bool) -> String {
     let small: usize = toks[0].parse().unwrap();
     let tmp = temp_dir::TempDir::new().unwrap();
     let cache = cache_dir(toks[1], &tmp);
@@ -279,9 +279,47 @@ fn server(toks: &[&str], idle: bool, revoke_mid: bool) -> String {
             builder = builder.receive_large_bodies(dir);
         }
     }
+    // mode T: while a handler of this server holds an upload that was received into a file, ANOTHER server is started on
+    // the same cache directory (a restart that overlaps the old instance, two instances sharing a directory): the
+    // handler must still find its body, byte for byte
+    let file_seen = Arc::new(std::sync::atomic::AtomicBool::new(false));
+    let other_started = Arc::new(std::sync::atomic::AtomicBool::new(false));
+    let (fs2, os2) = (file_seen.clone(), other_started.clone());
     let (addr, stopped) = executor
-        .block_on(builder.spawn(move |req: Request| scripted(req, &log2)))
+        .block_on(builder.spawn(move |req: Request| {
+            if second_server && matches!(req.body, RequestBody::TempFile(..) | RequestBody::File(..)) {
+                fs2.store(true, std::sync::atomic::Ordering::SeqCst);
+                let t0 = std::time::Instant::now();
+                while !os2.load(std::sync::atomic::Ordering::SeqCst) && t0.elapsed() < std::time::Duration::from_secs(3) {
+                    std::thread::sleep(std::time::Duration::from_millis(2));
+                }
+            }
+            scripted(req, &log2)
+        }))
         .unwrap();
+    let other = if second_server {
+        let cache2 = cache.clone();
+        let (fs3, os3) = (file_seen.clone(), other_started.clone());
+        Some(std::thread::spawn(move || {
+            let t0 = std::time::Instant::now();
+            while !fs3.load(std::sync::atomic::Ordering::SeqCst) && t0.elapsed() < std::time::Duration::from_secs(3) {
+                std::thread::sleep(std::time::Duration::from_millis(2));
+            }
+            let p2 = Permit::new();
+            let ex2 = safina::executor::Executor::new(1, 1).unwrap();
+            let mut b2 = HttpServerBuilder::new().max_conns(1).permit(p2.new_sub());
+            if let Some(dir) = &cache2 {
+                b2 = b2.receive_large_bodies(dir);
+            }
+            let r = ex2.block_on(b2.spawn(|_req: Request| Response::text(200, "other")));
+            os3.store(true, std::sync::atomic::Ordering::SeqCst);
+            std::thread::sleep(std::time::Duration::from_millis(300));
+            drop(r);
+            drop(p2);
+        }))
+    } else {
+        None
+    };
     let mut client = std::net::TcpStream::connect(addr).unwrap();
     let mut pos = 0;
     let mut k = 0;
@@ -341,6 +379,9 @@ fn server(toks: &[&str], idle: bool, revoke_mid: bool) -> String {
             break;
         }
         std::thread::sleep(std::time::Duration::from_millis(10));
+    }
+    if let Some(t) = other {
+        let _ = t.join();
     }
     let log = log.lock().unwrap().join(",");
     if idle {
@@ -436,9 +477,10 @@ fn main() {
     run_lines_marked(|toks| match toks[0] {
         "tables" => tables(),
         "D" => direct(&toks[1..]),
-        "S" => server(&toks[1..], false, false),
-        "I" => server(&toks[1..], true, false),
-        "R" => server(&toks[1..], false, true),
+        "S" => server(&toks[1..], false, false, false),
+        "I" => server(&toks[1..], true, false, false),
+        "R" => server(&toks[1..], false, true, false),
+        "T" => server(&toks[1..], false, false, true),
         "X" => direct_fsize(&toks[1..]),
         "B" => server_busy(&toks[1..]),
         _ => "?".to_string(),
